@@ -571,6 +571,11 @@ class Engine:
             v = self.operand(frame, m.group(2))
             if isinstance(v, SliceRef):
                 return v.len
+            t = self.read_path(v.frame, v.local, list(v.proj)) if isinstance(v, Ref) else v
+            if isinstance(t, tuple) and t and t[0] == "slice":
+                # structural slice of a modelled vector: ("slice", ref-to-vec[, start])
+                base = self.read_path(t[1].frame, t[1].local, list(t[1].proj))
+                return len(base[1]) - (t[2] if len(t) > 2 else 0)
             raise Unsupported("PtrMetadata of non-slice")
         if m and m.group(1) == "discriminant":
             v = self.read_place(frame, m.group(2))
